@@ -61,12 +61,15 @@ def class_tables(model, sx, cls):
                     if c == 1 and len(mono) == 1 and mono[0][1] == 1 and not mono[0][0].startswith('self.'):
                         mapping[mono[0][0]] = f'self.{sx.canon_field(cls, e[2])}'
     adv = {}
+    # the private field behind the public `time_variables` property, whatever it is called
+    tf = sx.trivial_getter_field(cls, 'time_variables') or '_RotatingObject__time_variables'
+    tv_attr = '__' + tf.split('__', 1)[1] if '__' in tf else tf
     for c2 in model.mro(cls):
         ci = model.classes.get(c2)
         if ci and '__init__' in ci.members:
             for n in ast.walk(ci.members['__init__'].node):
                 if isinstance(n, ast.Assign) and isinstance(n.value, ast.Dict) and any(
-                        isinstance(t, ast.Attribute) and t.attr == '__time_variables' for t in n.targets):
+                        isinstance(t, ast.Attribute) and t.attr == tv_attr for t in n.targets):
                     for k in n.value.keys:
                         if isinstance(k, ast.Constant):
                             adv[k.value] = [[]]
@@ -74,7 +77,7 @@ def class_tables(model, sx, cls):
     from sa.sx import Dv
     for o in done:
         for e in o.state.effects:
-            if e[0] == 'store' and e[1] == 'self' and e[2].endswith('__time_variables') and isinstance(e[3], Dv):
+            if e[0] == 'store' and e[1] == 'self' and e[2] == tf and isinstance(e[3], Dv):
                 for k in e[3].items:
                     adv.setdefault(k, [[]])
     adv_paths = {}
